@@ -30,7 +30,8 @@ pub fn strategy(tier: Tier) -> BS<Case> {
     let mut cfg = gen::ChainCfg::new(tier, gen::ordinary_script(tier));
     cfg.nblocks = prop_oneof![1 => 1usize..3, 6 => 3usize..12, 1 => 12usize..30].boxed();
     cfg.ntx = prop_oneof![3 => Just(0usize), 6 => 1usize..5].boxed();
-    cfg.base = gen::wide_base();
+    // a quarter of the chains straddle a subsidy-halving boundary 210000*k, k = 1..70 (the subsidy is one unit in era 32, zero from era 33 on)
+    cfg.base = prop_oneof![9 => gen::wide_base(), 3 => (1u64..=70, 0u64..6).prop_map(|(k, d)| 210_000 * k - d)].boxed();
     cfg.time = gen::wild_time();
     // coinbase-shaped inputs in any position, and 'half null' outpoints (zero txid with another
     // index; index 0xffffffff with a non-zero txid) that must NOT count as coinbase
@@ -111,6 +112,11 @@ fn run(eng: &Engine, a: &Args) {
         b.time = t;
     }
     let mut fixed = vec![Case { chain: reg, start_sel: None, end_sel: None }];
+    // regression input of the repaired subsidy shift (known_findings.json, fixed: C15): heights around 64 and 65 halvings
+    for base in [13_439_998u64, 13_650_000] {
+        let scripts: Vec<Vec<u8>> = (0..4).map(|i| vec![0x51 + i as u8]).collect();
+        fixed.push(Case { chain: vpmodel::spec::chain_from_scripts(vpmodel::chain::Coin::Dogecoin, &scripts, &[3, 1000], 1, 1, base, 1_700_000_000), start_sel: None, end_sel: None });
+    }
     // the biggest transaction carries a script whose length sits on a CompactSize boundary
     for (k, len) in [252usize, 253, 254, 65534, 65535, 65536].iter().enumerate() {
         let mut scripts: Vec<Vec<u8>> = (0..5).map(|i| vec![0x52 + i as u8]).collect();
